@@ -9,7 +9,9 @@ use std::sync::Arc;
 
 pub const SDL: &str = "type Query { a: Int b: Int! o: Obj on: Obj! i: Iface u: Uni l: [Int] ln: [Int!] lnn: [Int!]! lo: [Obj] ll: [[Int!]] e: En s: String f: Float id: ID }
 type Mutation { m1: Int m2: Int! }
-type Obj implements Iface { x: Int y: Int! o: Obj }
+type Obj implements Iface & OnlyObj { x: Int y: Int! o: Obj }
+interface OnlyObj { y: Int! }
+union JustOther = Other
 type Other implements Iface { x: Int z: Int }
 interface Iface { x: Int }
 union Uni = Obj | Other
@@ -213,6 +215,7 @@ fn fields_of(t: &str) -> &'static [(&'static str, &'static str, bool)] {
         "Obj" => &[("x", "Int", false), ("y", "Int", false), ("o", "Obj", true)],
         "Other" => &[("x", "Int", false), ("z", "Int", false)],
         "Iface" => &[("x", "Int", false)],
+        "OnlyObj" => &[("y", "Int", false)],
         _ => &[],
     }
 }
@@ -224,8 +227,13 @@ fn random_sels(rng: &mut Rng, t: &str, depth: usize, keyc: &mut usize) -> J {
         let fs = fields_of(t);
         let choice = rng.below(10);
         if t == "Uni" || (choice == 0 && matches!(t, "Iface" | "Uni")) || fs.is_empty() {
-            let on = *rng.pick(&["Obj", "Other"]);
-            sels.push(json!(["inline", on, random_sels(rng, on, depth, keyc), rng.chance(7, 8)]));
+            let on = *rng.pick(&["Obj", "Other", "OnlyObj", "JustOther", "Iface"]);
+            let inner = match on { "OnlyObj" => "OnlyObj", "JustOther" => "Other", "Iface" => "Iface", o => o };
+            if on == "JustOther" {
+                sels.push(json!(["spread", "K", true]));
+            } else {
+                sels.push(json!(["inline", on, random_sels(rng, inner, depth, keyc), rng.chance(7, 8)]));
+            }
             continue;
         }
         if choice == 1 {
@@ -319,6 +327,7 @@ pub fn record(args: &[String]) {
     let mut out = Out::new();
     let frags = json!({"G": {"on": "Obj", "sels": [["field", "x", "x", [], true]]},
                        "H": {"on": "Iface", "sels": [["field", "x", "x", [], true]]},
+                       "K": {"on": "JustOther", "sels": [["field", "__typename", "__typename", [], true], ["inline", "Other", [["field", "z", "z", [], true]], true]]},
                        "F1": {"on": "Query", "sels": [["field", "a", "a", [], true]]}});
     let mut emitted = 0;
     let mut tries = 0;
